@@ -81,29 +81,30 @@ type PathSample struct {
 }
 
 type HarnessResult struct {
-	Spec        HarnessSpec
-	Paths       int
-	Nontrivial  int
-	Ends        map[string]int
-	Instrs      int64
-	Funcs       map[string]int
-	Stubs       map[string]int
-	Reached     map[string]int
-	Forks       map[string]int
-	Violations  map[string][]Violation
-	Samples     []PathSample
-	Queries     int
-	Sat         int
-	Unsat       int
-	Unknown     int
-	SolverTime  time.Duration
-	Wall        time.Duration
-	States      int64
-	Transitions int64
-	Incomplete  string
-	Faults      []string
-	UnwindFail  map[string]int
-	mu          sync.Mutex
+	Spec         HarnessSpec
+	Paths        int
+	Nontrivial   int
+	Ends         map[string]int
+	Instrs       int64
+	Funcs        map[string]int
+	Stubs        map[string]int
+	Reached      map[string]int
+	Forks        map[string]int
+	Violations   map[string][]Violation
+	Samples      []PathSample
+	Queries      int
+	Sat          int
+	Unsat        int
+	Unknown      int
+	SolverTime   time.Duration
+	Wall         time.Duration
+	States       int64
+	Transitions  int64
+	Incomplete   string
+	Faults       []string
+	UnwindFail   map[string]int
+	CrossChecked int
+	mu           sync.Mutex
 }
 
 func runHarness(ld *Loaded, spec HarnessSpec, tier string, workers int, twin bool) *HarnessResult {
@@ -123,6 +124,7 @@ func runHarness(ld *Loaded, spec HarnessSpec, tier string, workers int, twin boo
 		for k, v := range spec.TParams {
 			params[k] = v
 		}
+		params["__cross"] = 1
 	}
 	for k, v := range cliParams {
 		params[k] = v
@@ -188,6 +190,7 @@ func runHarness(ld *Loaded, spec HarnessSpec, tier string, workers int, twin boo
 						res.Faults = append(res.Faults, end+" [decisions "+vecString(ex.vector())+"]")
 					}
 				}
+				res.CrossChecked += i.crossChecked
 				res.Instrs += i.instrs
 				for k, n := range i.cs.kinds {
 					res.Forks["yield:"+k] += n
@@ -218,7 +221,7 @@ func runHarness(ld *Loaded, spec HarnessSpec, tier string, workers int, twin boo
 					s := PathSample{Decisions: vecString(ex.vector()), End: end, Trace: i.traceStrings(), Notes: i.notes}
 					if len(i.pc) > 0 && len(i.pc) < 60 {
 						if r, m := solver.Check(i.pc, true); r == "sat" {
-							s.Model = trimModel(m, 12)
+							s.Model = m
 						}
 					}
 					res.Samples = append(res.Samples, s)
@@ -432,6 +435,7 @@ func cmdCheck(o checkOpts) int {
 	knownHits := map[string]bool{}
 	var confirmed []Violation
 	validated := 0
+	var mismatches []string
 	for _, spec := range specs {
 		res := runHarness(ld, spec, o.tier, o.workers, false)
 		results = append(results, res)
@@ -467,6 +471,39 @@ func cmdCheck(o checkOpts) int {
 			if res.Reached[l] == 0 && len(res.Faults) == 0 && res.Incomplete == "" {
 				v := Violation{Harness: spec.name(), Kind: "assert", Label: "must-reach/" + l, Model: map[string]string{}}
 				res.Violations[v.sig()] = []Violation{v}
+			}
+		}
+		// translator validation: re-run sampled non-violating paths natively
+		if spec.Replay != "" && !o.noReplay {
+			want := 1
+			if o.tier == "thorough" {
+				want = 3
+			}
+			done := 0
+			for n, smp := range res.Samples {
+				if done >= want {
+					break
+				}
+				if smp.End != "ok" || smp.Model == nil {
+					continue
+				}
+				hasK := false
+				for _, l := range smp.Trace {
+					if strings.Contains(l, " K ") {
+						hasK = true
+					}
+				}
+				if hasK {
+					continue
+				}
+				ok, why := validateSample(spec, smp, n)
+				done++
+				if ok {
+					validated++
+				} else {
+					mismatches = append(mismatches, spec.name()+": "+why)
+					fmt.Printf("   sample path not validated natively: %s\n", why)
+				}
 			}
 		}
 		sigs := sortedKeys(res.Violations)
@@ -517,7 +554,7 @@ func cmdCheck(o checkOpts) int {
 		}
 	}
 	wall := time.Since(t0)
-	writeEvidence(o, ld, results, violations, unconfirmed, validated, broken, wall, confirmed)
+	writeEvidence(o, ld, results, violations, unconfirmed, validated, broken, wall, confirmed, mismatches)
 	if len(broken) > 0 {
 		for _, b := range broken {
 			fmt.Println("BROKEN property=" + o.prop + " " + b)
@@ -574,7 +611,7 @@ func printResult(r *HarnessResult, verbose bool) {
 // ---------------------------------------------------------------------------------------
 // evidence
 
-func writeEvidence(o checkOpts, ld *Loaded, results []*HarnessResult, violations, unconfirmed, validated int, broken []string, wall time.Duration, confirmed []Violation) {
+func writeEvidence(o checkOpts, ld *Loaded, results []*HarnessResult, violations, unconfirmed, validated int, broken []string, wall time.Duration, confirmed []Violation, mismatches []string) {
 	level := propLevel(o.prop)
 	paths, nontriv, queries, sat, unsat, unknown := 0, 0, 0, 0, 0, 0
 	var states, transitions, instrs int64
@@ -582,6 +619,10 @@ func writeEvidence(o checkOpts, ld *Loaded, results []*HarnessResult, violations
 	funcs := map[string]string{}
 	stubs := map[string]int{}
 	forks := map[string]int{}
+	cross := 0
+	for _, r := range results {
+		cross += r.CrossChecked
+	}
 	var samples []any
 	var harnesses []any
 	bounds := map[string]any{}
@@ -615,7 +656,7 @@ func writeEvidence(o checkOpts, ld *Loaded, results []*HarnessResult, violations
 		}
 		for _, s := range r.Samples {
 			if len(samples) < 8 {
-				samples = append(samples, map[string]any{"harness": r.Spec.name(), "decisions": s.Decisions, "end": s.End, "model": s.Model, "trace": s.Trace, "notes": s.Notes})
+				samples = append(samples, map[string]any{"harness": r.Spec.name(), "decisions": s.Decisions, "end": s.End, "model": trimModel(s.Model, 14), "trace": s.Trace, "notes": s.Notes})
 			}
 		}
 		p := map[string]int{}
@@ -663,27 +704,29 @@ func writeEvidence(o checkOpts, ld *Loaded, results []*HarnessResult, violations
 		}
 	}
 	cov := map[string]any{
-		"evaluations":                 paths,
-		"distinct_nontrivial":         nontriv,
-		"rule":                        "every path of the bounded symbolic execution tree of each harness is explored exactly once (DFS over decision vectors: solver-decided branches, size/choice forks, scheduler picks); a path is non-trivial when it contains at least one decision with two or more solver-feasible alternatives; paths are distinct by decision vector",
-		"samples":                     samples,
-		"explanation":                 "bounded symbolic execution of the real go-task functions (go/ssa of /repo's working tree, regenerated this run) with an SMT solver (z3) deciding every branch feasibility and every assertion over all values of the symbolic inputs within the stated bounds; counterexamples are replayed against the real build before being reported",
-		"exhaustive":                  len(broken) == 0,
-		"functions_encoded":           repoFuncs,
-		"functions_encoded_n":         len(fenc),
-		"source_files_sha256":         fileSet,
-		"stubs":                       stubs,
-		"bounds":                      bounds,
-		"forks_by_kind":               forks,
-		"assertion_sites":             asserts,
-		"queries":                     map[string]int{"total": queries, "sat": sat, "unsat": unsat, "unknown": unknown},
-		"solver":                      solverVersion(),
-		"solver_time_s":               solverTime.Seconds(),
-		"ssa_instructions":            instrs,
-		"harnesses":                   harnesses,
-		"unconfirmed_counterexamples": unconfirmed,
-		"load_and_ssa_build_s":        ld.loadTime.Seconds(),
-		"broken":                      broken,
+		"evaluations":                  paths,
+		"distinct_nontrivial":          nontriv,
+		"rule":                         "every path of the bounded symbolic execution tree of each harness is explored exactly once (DFS over decision vectors: solver-decided branches, size/choice forks, scheduler picks); a path is non-trivial when it contains at least one decision with two or more solver-feasible alternatives; paths are distinct by decision vector",
+		"samples":                      samples,
+		"explanation":                  "bounded symbolic execution of the real go-task functions (go/ssa of /repo's working tree, regenerated this run) with an SMT solver (z3) deciding every branch feasibility and every assertion over all values of the symbolic inputs within the stated bounds; counterexamples are replayed against the real build before being reported",
+		"exhaustive":                   len(broken) == 0,
+		"functions_encoded":            repoFuncs,
+		"functions_encoded_n":          len(fenc),
+		"source_files_sha256":          fileSet,
+		"stubs":                        stubs,
+		"bounds":                       bounds,
+		"forks_by_kind":                forks,
+		"assertion_sites":              asserts,
+		"queries":                      map[string]int{"total": queries, "sat": sat, "unsat": unsat, "unknown": unknown},
+		"solver":                       solverVersion(),
+		"solver_time_s":                solverTime.Seconds(),
+		"ssa_instructions":             instrs,
+		"harnesses":                    harnesses,
+		"unconfirmed_counterexamples":  unconfirmed,
+		"load_and_ssa_build_s":         ld.loadTime.Seconds(),
+		"broken":                       broken,
+		"paths_validated_natively":     validated,
+		"native_validation_mismatches": mismatches,
 	}
 	if level == "model_checking" {
 		if states < 1 {
